@@ -178,7 +178,6 @@ pub open spec fn is_pool_token(pi: PairInfoRaw, who: Seq<char>) -> bool {
 pub open spec fn tok_is(i: AssetInfo, who: Seq<char>) -> bool { i matches AssetInfo::Token { contract_addr } && contract_addr@ == who }
 //%fn contracts/halo-pair/src/contract.rs | - | receive_cw20
 //%%rewrite #1 /for pool in pools\.iter\(\)/ => for pool in it: pools.iter() ## name the loop's ghost iterator so the invariant can mention its position
-//%%rewrite #1 /Addr::unchecked\(cw20_msg\.sender\)/ => addr_unchecked_string(cw20_msg.sender) ## shim: Addr::unchecked(String) has the argument as its text
 //%%sig
     ensures
         /*[C02,C01,C03,C14 hook.swap.amount]*/ decode::<Cw20HookMsg>(cw20_msg.msg) matches Ok(Cw20HookMsg::Swap { offer_asset, belief_price, max_spread, to }) ==> r is Ok ==>
